@@ -87,6 +87,8 @@ def chk_carriers(case, note):
         if (head ^ code) & 1:
             variants.prelude(pms, msg)  # a receiver checks parity / address of the same string first
         for name, fn in fns:
+            if (head ^ code) & 8:
+                variants.damaged_calls(fn, msg)
             r = call(fn, msg)
             if call(fn, msg) != r:
                 return "%s(%s) gives %r and then %r when called twice" % (name, msg, r, call(fn, msg))
